@@ -15,8 +15,8 @@ string fields fail with the UTF-8 error).  protojson/prototext are other engines
 * `enc_utf8_iff`         — Marshal rejects ⇔ some enforced string position (singular, list element,
                            map key/value via the entry message, at any nesting depth) holds invalid
                            UTF-8 (`BadStr`, an independent inductive characterisation);
-* `dec_utf8`, `dec_utf8_after_fields`, `dec_utf8_map_key` — Unmarshal fails with the UTF-8 error on a
-                           record of an enforced string field (singular or repeated; map key) whose
+* `dec_utf8`, `dec_utf8_after_fields`, `dec_utf8_map_key`, `dec_utf8_map_value` — Unmarshal fails with the UTF-8 error on a
+                           record of an enforced string field (singular or repeated; map key or value) whose
                            payload is invalid, at the head or after any well-formed fields;
 * `dec_accepts_valid`    — valid UTF-8 (indeed any well-formed message) is accepted: C03;
 * `bytes_pass_through`, `bytes_list_pass_through` — bytes fields and non-enforced string fields
@@ -92,6 +92,20 @@ theorem dec_utf8_map_key (S : Schema) (mi : Nat) (m : Msg) (f kf vf : Field) (p 
   have : ¬ limit - 1 < 0 := by omega
   simp only [this, if_false]
   exact dec_bad_utf8_map_key hfind h1 h2 hc hkf hvf hk hu hp hbad hbody rest (limit - 1) (by omega) dis _ (Nat.le_refl _)
+
+/-- map values: an entry whose scalar value is an enforced string with invalid UTF-8 is rejected -/
+theorem dec_utf8_map_value (S : Schema) (mi : Nat) (m : Msg) (f kf vf : Field) (p restE rest : List Byte) (limit : Int)
+    (dis : Bool) (hfind : (S.msg mi).find f.num = some f) (h1 : 1 ≤ f.num) (h2 : f.num ≤ maxValidNumber)
+    (hc : f.card = .map) (hkf : (S.msg f.sub).find 1 = some kf) (hvf : (S.msg f.sub).find 2 = some vf)
+    (hk : vf.kind = .string) (hu : vf.utf8 = true) (hp : p.length < 2 ^ 64) (hbad : utf8Valid p = false)
+    (hbody : (tagBytes 2 2 ++ (encVarint p.length ++ (p ++ restE))).length < 2 ^ 64) (hl : 2 ≤ limit) :
+    unmarshalInto S mi m
+      (tagBytes f.num 2 ++ (encVarint (tagBytes 2 2 ++ (encVarint p.length ++ (p ++ restE))).length ++
+        ((tagBytes 2 2 ++ (encVarint p.length ++ (p ++ restE))) ++ rest))) limit dis = .error .utf8 := by
+  unfold unmarshalInto
+  have : ¬ limit - 1 < 0 := by omega
+  simp only [this, if_false]
+  exact dec_bad_utf8_map_value hfind h1 h2 hc hkf hvf hk hu hp hbad hbody rest (limit - 1) (by omega) dis _ (Nat.le_refl _)
 
 /-- every well-formed message — in particular every message whose enforced strings are valid UTF-8 —
 is accepted and comes back unchanged -/
